@@ -8,7 +8,7 @@ From BS Require Import Model.Base Model.Regex Model.Num Model.ExprParser Model.S
   Proofs.ExprFuel Proofs.C10wsFull Proofs.RegexShiftG Proofs.C10wsIndent2 Proofs.C10wsReturn
   Proofs.C10tokLex Proofs.C10tokSpaced Proofs.RegexTrail Proofs.C10tokTrail Proofs.RegexTrail2
   Proofs.RegexTrail3 Proofs.C10stmtTrail Proofs.C10parseNoeq Proofs.C10classifyTrail Proofs.C10stmtGaps Proofs.C10stmtGaps2 Proofs.C10stmtGaps3
-  Proofs.C10stmtGaps4 Proofs.C10stmtGaps5 Proofs.C10stmtGaps6 Proofs.C02str Proofs.C10stmtGaps7 Proofs.C10stmtGaps8.
+  Proofs.C10stmtGaps4 Proofs.C10stmtGaps5 Proofs.C10stmtGaps6 Proofs.C02str Proofs.C10stmtGaps7 Proofs.C10stmtGaps8 Proofs.C10stmtGaps9.
 
 (* ---- LF versus CRLF: both texts have the same lines ---- *)
 Theorem C10_crlf : forall lines, lines <> [] -> Forall no_lf lines -> Forall (fun l => ends_cr l = false) lines ->
@@ -551,6 +551,45 @@ Example C10_ex_ws_fn_begin :
   Lower.classify 2 (U "function g( ) :") = ROk (KFnBegin (U "g") (ROk None) false false) /\
   Lower.classify 2 (U "function g(  ...):") = ROk (KFnBegin (U "g") (ROk None) false true).
 Proof. exact fn_begin_examples. Qed.
+
+(* ---- round 8 (Proofs/C10stmtGaps9.v): the argument list of a function begin line IS the list of the names, for EVERY
+   argument list: the model's re_split of the captured text  a1 u1 , v1 a2 u2 , v2 a3 ...  at `\s*,\s*` gives
+   [a1; a2; a3; ...] (fn_names; name3 (u, v, a) = a), whatever the white runs u_i v_i are (also empty, also LF / form feed).
+   The captured text never has a leading or trailing run: group 3 of the function-begin regex starts at the first
+   character of a1 and ends behind the last name — a run in front of `...` belongs to the dots group, a run in front of `)`
+   to the `\s*` of the regex (FB_ARGS_read in C10stmtGaps8.v) — so no piece is empty and nothing is stripped.  Without
+   an argument group the model gives ROk None (Python: m.group('args') is None).
+   C10_ws_fn_begin_names = C10_ws_fn_begin_pieces with the explicit list. ---- *)
+Theorem C10_ws_fn_args_are_the_names : forall args, aok args -> fn_args args = ROk (fn_names args).
+Proof. exact fn_args_names. Qed.
+Print Assumptions C10_ws_fn_args_are_the_names.
+
+Theorem C10_ws_fn_args_are_the_names_explicit :
+  (forall a1 more, ident a1 = true -> mok more ->
+     fn_args (Some (a1, more)) = ROk (Some (a1 :: map (fun x : arg3 => let '(u, v, a) := x in a) more))) /\
+  fn_args None = ROk None.
+Proof. split; [intros a1 more IA MO; exact (fn_args_names (Some (a1, more)) (conj IA MO)) | reflexivity]. Qed.
+Print Assumptions C10_ws_fn_args_are_the_names_explicit.
+
+Theorem C10_ws_fn_begin_names : forall n asy w1 w2 name w3 w4 args dots w6 w7 w8,
+  awhite asy -> white w1 -> white w2 -> w2 <> [] -> ident name = true -> white w3 -> white w4 -> aok args -> dwhite dots ->
+  white w6 -> white w7 -> white w8 -> hd_ok is_sp (atext args ++ dtext dots ++ CL w6 w7 w8) ->
+  Lower.classify n (astext asy ++ w1 ++ U "function" ++ w2 ++ name ++ w3 ++ U "(" ++ w4 ++ atext args ++ dtext dots ++ CL w6 w7 w8)
+  = ROk (KFnBegin name (ROk (fn_names args)) (is_some asy) (is_some dots)).
+Proof. exact classify_fn_begin_names. Qed.
+Print Assumptions C10_ws_fn_begin_names.
+
+(* non-vacuity: the premise holds for a three-argument list with blank / tab / empty runs; the loose line classifies with
+   the explicit names THROUGH the theorem; tight layouts computed; a blank inside a name is outside the shape *)
+Example C10_ex_ws_fn_names :
+  aok (Some (U "a", [(U " ", [], U "b1"); (U " \000009 ", U " ", U "c")])) /\
+  fn_names (Some (U "a", [(U " ", [], U "b1"); (U " \000009 ", U " ", U "c")])) = Some [U "a"; U "b1"; U "c"] /\
+  Lower.classify 2 (U "  async \000009function  f1 ( a ,b1 \000009 , c  ... ) :  ")
+    = ROk (KFnBegin (U "f1") (ROk (Some [U "a"; U "b1"; U "c"])) true true) /\
+  Lower.classify 2 (U "function f1(a,b1,c):") = ROk (KFnBegin (U "f1") (ROk (Some [U "a"; U "b1"; U "c"])) false false) /\
+  Lower.classify 2 (U "function f1(a):") = ROk (KFnBegin (U "f1") (ROk (Some [U "a"])) false false) /\
+  Lower.classify 2 (U "function f1(a b):") <> Lower.classify 2 (U "function f1(ab):").
+Proof. exact fn_names_examples. Qed.
 
 Theorem C10_expression_never_starts_eq : forall t e, parse_expression (U "=" ++ t) <> EOk e.
 Proof. exact parse_hd_noeq. Qed.
